@@ -1165,3 +1165,62 @@ def oracle_datasets(rng, stats):
         except Exception as e:    # noqa: BLE001
             v.append(viol('C15', 'valid join on the person data raised %s: %s' % (type(e).__name__, str(e)[:80]), {'entry': 'dataset', 'which': which}))
     return v
+
+
+def oracle_size_grid(nmax, stats):
+    """C14/C04 on the arithmetic kernel, EXHAUSTIVELY over token-count pairs up to nmax and a dense threshold grid:
+    the size window keeps every count pair that can reach the threshold and drops every pair whose best attainable
+    similarity is more than 1e-4 below it (real get_size_lower_bound / get_size_upper_bound)."""
+    from py_stringsimjoin.filter import filter_utils as FU
+    from fractions import Fraction as F
+    v = []
+    ths = sorted(set([k / 100 for k in range(1, 101)] + [k / 1000 for k in range(1, 1000, 9)] + [1 / 3, 2 / 3, 1 / 7, 0.28, 0.56]))
+    cnt = 0
+    for t in ths:
+        ft = F(t)
+        for n in range(1, nmax + 1):
+            lo = {m: FU.get_size_lower_bound(n, m, t) for m in ('JACCARD', 'COSINE', 'DICE')}
+            hi = {m: FU.get_size_upper_bound(n, m, t) for m in ('JACCARD', 'COSINE', 'DICE')}
+            for k in range(1, nmax + 1):
+                a, b = min(n, k), max(n, k)
+                cnt += 1
+                best = {'JACCARD': F(a, b), 'DICE': F(2 * a, n + k)}
+                for m in ('JACCARD', 'DICE'):
+                    kept = lo[m] <= k <= hi[m]
+                    if best[m] >= ft and not kept:
+                        v.append(viol('C04', 'size window drops counts that reach the threshold (%s t=%r n=%d k=%d)' % (m, t, n, k), {'entry': 'size_grid', 'm': m, 't': t, 'n': n, 'k': k}))
+                    if best[m] < ft - F(1, 10000) and kept:
+                        v.append(viol('C14', 'size window keeps hopeless counts (%s t=%r n=%d k=%d)' % (m, t, n, k), {'entry': 'size_grid', 'm': m, 't': t, 'n': n, 'k': k}))
+                kept = lo['COSINE'] <= k <= hi['COSINE']
+                if F(a, b) >= ft * ft and not kept:          # sqrt(a/b) >= t
+                    v.append(viol('C04', 'size window drops counts that reach the threshold (COSINE t=%r n=%d k=%d)' % (t, n, k), {'entry': 'size_grid', 'm': 'COSINE', 't': t, 'n': n, 'k': k}))
+                if ft > F(1, 10000) and F(a, b) < (ft - F(1, 10000)) ** 2 and kept:
+                    v.append(viol('C14', 'size window keeps hopeless counts (COSINE t=%r n=%d k=%d)' % (t, n, k), {'entry': 'size_grid', 'm': 'COSINE', 't': t, 'n': n, 'k': k}))
+                if len(v) > 20:
+                    return v
+    stats.hit('oracle.size_grid.points', cnt)
+    return v
+
+
+def oracle_suffix_exhaustive(universe, stats):
+    """C04 (SuffixFilter): the Hamming lower-bound estimator, EXHAUSTIVELY over all pairs of subsets of `universe` ranks and
+    all budgets: it may exceed the budget only if the true Hamming distance does"""
+    from py_stringsimjoin.filter.suffix_filter import SuffixFilter
+    f = SuffixFilter(TokSpec('ws', return_set=True).obj, 'JACCARD', 0.5)
+    v = []
+    subsets = [[i for i in range(universe) if (mask >> i) & 1] for mask in range(1 << universe)]
+    cnt = 0
+    for a in subsets:
+        sa = set(a)
+        for b in subsets:
+            H = len(sa ^ set(b))
+            for hmax in range(-1, universe + 3):
+                est = f._est_hamming_dist_lower_bound(a, b, len(a), len(b), hmax, 1)
+                cnt += 1
+                if min(est, hmax + 1) > H:
+                    v.append(viol('C04', 'SuffixFilter Hamming estimate %s exceeds the true distance %d within budget %d' % (est, H, hmax),
+                                  {'entry': 'suffix_estimator', 'l': a, 'r': b, 'hmax': hmax}))
+                    if len(v) > 10:
+                        return v
+    stats.hit('oracle.suffix_exhaustive.calls', cnt)
+    return v
